@@ -55,6 +55,12 @@ func c05Gen(c *vfCtx, emit func(c05Case)) {
 				}
 			}
 		}
+		// an existing but EMPTY snapshot directory that a call addressed without being allowed to create anything: no mode deletes it
+		for _, sort := range []bool{false, true} {
+			for _, opt := range []string{"false", ""} {
+				emit(c05Case{Kind: "emptydir", CI: ci, Env: env, Sort: sort, Opt: opt})
+			}
+		}
 		for _, sort := range []bool{false, true} {
 			for _, stale := range []string{"none", "entry", "file", "both"} {
 				for _, sorted := range []bool{true, false} {
@@ -84,6 +90,10 @@ func c05Run(c *vfCtx, cs c05Case) {
 	c.addSet("nontrivial", vfHashJSON(cs))
 	if cs.Kind == "clean" {
 		c05Clean(c, cs)
+		return
+	}
+	if cs.Kind == "emptydir" {
+		c05EmptyDir(c, cs)
 		return
 	}
 	dir := c.newWorld()
@@ -184,6 +194,50 @@ func c05Run(c *vfCtx, cs c05Case) {
 	t2.end()
 	if o := t2.outcome(mk2); o != "pass" {
 		c.violation("", fmt.Sprintf("cell %+v: after the %s the new value does not replay: %s %v", cs, want, o, t2.errs), cs)
+	}
+}
+
+// c05EmptyDir: directories are part of the observable state. Two empty snapshot directories (one nested) are addressed by calls;
+// where the mode forbids creation the calls fail and create nothing, and Clean - in whatever mode - removes no directory.
+func c05EmptyDir(c *vfCtx, cs c05Case) {
+	root := c.newWorld()
+	d1, d2 := filepath.Join(root, "empty"), filepath.Join(root, "nested", "empty")
+	os.MkdirAll(d1, 0o755)
+	os.MkdirAll(d2, 0o755)
+	vfResetState(cs.CI, cs.Env, true)
+	m := vfNewModel(cs.CI, cs.Env)
+	created := false
+	for i, d := range []string{d1, d2} {
+		for _, api := range []string{"snap", "ssnap", "sjson"} {
+			t := &vfT{name: fmt.Sprintf("TestE%d", i)}
+			mk := t.mark()
+			vfCall{API: api, Val: "1", Upd: cs.Opt}.do(t, d)
+			t.end()
+			c.count("transitions", 1)
+			want := "failed"
+			if m.canCreate(cs.Opt) {
+				want, created = "added", true
+			}
+			if got := t.outcome(mk); got != want {
+				c.violation("", fmt.Sprintf("cell %+v: %s into an empty directory signalled %s, the mode table says %s", cs, api, got, want), cs)
+				return
+			}
+		}
+	}
+	before := vfSnapDir(root)
+	vfClean("", 1, cs.Sort)
+	c.count("transitions", 1)
+	after := vfSnapDir(root)
+	c.addSet("states", vfHash(fmt.Sprint(vfHashDir(after)), fmt.Sprint(cs)))
+	c.outcome(fmt.Sprintf("emptydir:created=%v", created))
+	for _, d := range []string{d1, d2, filepath.Join(root, "nested")} {
+		if fi, err := os.Stat(d); err != nil || !fi.IsDir() {
+			c.violation("", fmt.Sprintf("cell %+v: directory %s is gone after the calls and Clean (calls created something: %v)", cs, strings.TrimPrefix(d, root), created), cs)
+			return
+		}
+	}
+	if d := vfDirDiff(before, after, true); d != "" {
+		c.violation("", fmt.Sprintf("cell %+v: nothing is obsolete, yet Clean changed the directory: %s", cs, d), cs)
 	}
 }
 
